@@ -42,7 +42,7 @@ type c18Case struct {
 	Via       map[string]string `json:"delivered_via"` // setting -> file | env | both (file carries a conflicting value, the environment wins)
 }
 
-var c18AuthSets = [][]string{{"openid"}, {"local"}, {"basic"}, {"ntlm"}, {"kerberos"}, {"openid", "local"}, {"openid", "ntlm"}, {"openid", "kerberos"},
+var c18AuthSets = [][]string{{}, {"openid"}, {"local"}, {"basic"}, {"ntlm"}, {"kerberos"}, {"openid", "local"}, {"openid", "ntlm"}, {"openid", "kerberos"},
 	{"local", "ntlm"}, {"local", "kerberos"}, {"ntlm", "kerberos"}, {"openid", "local", "kerberos"}, {"openid", "local", "ntlm"}, {"openid", "ntlm", "kerberos"}, {"local", "ntlm", "kerberos"}, {"openid", "basic", "ntlm"}}
 
 var c18Settings = []string{"auth", "tls", "hostsel", "querykey", "hosts", "keytab", "tokenauth"}
@@ -155,7 +155,11 @@ func (c c18Case) build() (gwproc.Config, []string) {
 	if len(c.Auth) == 1 && c.Auth[0] == "openid" {
 		decoyAuth = []string{"ntlm"}
 	}
-	put("auth", "Server", "Authentication", "RDPGW_SERVER__AUTHENTICATION", c.Auth, decoyAuth)
+	if len(c.Auth) == 0 {
+		cfg.Set("Server", "Authentication", []string{}) // the setting is there, the list is empty (file only: an empty variable is a different thing)
+	} else {
+		put("auth", "Server", "Authentication", "RDPGW_SERVER__AUTHENTICATION", c.Auth, decoyAuth)
+	}
 	if c.TLS == "disable" {
 		put("tls", "Server", "Tls", "RDPGW_SERVER__TLS", "disable", "auto")
 	} else {
@@ -223,7 +227,7 @@ func runC18(c c18Case) *Violation {
 		}
 		return nil
 	}
-	if !contains([]string{"roundrobin", "signed", "unsigned", "any"}, c.HostSel) {
+	if !contains([]string{"roundrobin", "signed", "unsigned", "any"}, c.HostSel) || len(c.Auth) == 0 {
 		// undocumented spelling: starting or refusing are both acceptable; a started instance is probed
 		if exited || !in.Listening() {
 			return nil
@@ -231,6 +235,13 @@ func runC18(c c18Case) *Violation {
 	}
 	if exited || !in.Listening() {
 		return viol("c18/good-config-refused", "a consistent configuration did not start (exit %v code %d): %s\n stderr: %s", exited, code, desc, tail(in.Stderr(), 700))
+	}
+	if c.TokenAuth == "false" {
+		// whatever the authentication list says: an instance that behaves as an OpenID gateway (its /connect sends the
+		// browser to the identity provider) although cookie authentication is off runs the configuration that must be refused
+		if r0, err0 := newBrowser().get(in, "/connect"); err0 == nil && r0.Code == http.StatusFound && strings.HasPrefix(r0.Header.Get("Location"), W().IdP.URL) {
+			return viol("c18/openid-running-without-cookie-authentication", "the gateway started, cookie authentication is off, and GET /connect redirects to the identity provider (%s): %s", r0.Header.Get("Location"), desc)
+		}
 	}
 	if has(c.Auth, "openid") && !c.QueryKey {
 		// behaviour of the running instance: with signed host selection a download needs a host token, and
@@ -383,11 +394,12 @@ func TestC18_LOAD(t *testing.T) {
 type c18Pair struct {
 	Short  string `json:"short_key"` // which key (pair) is short/absent: none | paa-signing | session | user-token
 	Length int    `json:"length"`    // -1 absent, 0, 1, 31
+	NoAutoSeed bool `json:"math_rand_not_auto_seeded,omitempty"` // both instances run with GODEBUG=randautoseed=0: only a cryptographic generator still gives them different keys
 }
 
 func TestC18_PAIR(t *testing.T) {
 	runProp(t, "C18_PAIR", func(t *rapid.T) c18Pair {
-		return c18Pair{Short: rapid.SampledFrom([]string{"none", "paa-signing", "session", "user-token"}).Draw(t, "short"), Length: rapid.SampledFrom([]int{-1, 0, 1, 31}).Draw(t, "length")}
+		return c18Pair{Short: rapid.SampledFrom([]string{"none", "paa-signing", "session", "user-token"}).Draw(t, "short"), Length: rapid.SampledFrom([]int{-1, 0, 1, 31}).Draw(t, "length"), NoAutoSeed: rapid.Bool().Draw(t, "noAutoSeed")}
 	}, func(c c18Pair) (bool, []string) { return true, []string{"short=" + c.Short} }, func(c c18Pair) *Violation {
 		w := W()
 		mk := func() (*gwproc.Inst, error) {
@@ -408,7 +420,11 @@ func TestC18_PAIR(t *testing.T) {
 			case "user-token":
 				short("Security", "UserTokenEncryptionKey")
 			}
-			return gwproc.Start(cfg, gwproc.StartOpts{})
+			so := gwproc.StartOpts{}
+			if c.NoAutoSeed {
+				so.Env = []string{"GODEBUG=randautoseed=0"}
+			}
+			return gwproc.Start(cfg, so)
 		}
 		i1, err := mk()
 		if err != nil {
